@@ -245,8 +245,12 @@ def proposals_on(final_exprs):
     from ddsmt import nodeio, smtlib, strategy_hierarchical
     from ddsmt.mutator_utils import apply_simp
     smtlib.collect_information(final_exprs)
-    passes = strategy_hierarchical.get_passes()
-    muts, params = strategy_hierarchical.get_pass(passes, len(passes) - 1)
+    # every enabled mutator, straight from the registry and the option
+    # flags - not from the pass list, which is part of what is being checked
+    from ddsmt import mutators
+    names = [m for grp in mutators.get_all_mutators().values()
+             for m in grp[1]]
+    muts, params = mutators.get_mutators(names), {}
     flag = sched.VEvent(None)
     prod = strategy_hierarchical.Producer(muts, flag, final_exprs)
     path = os.path.join(sched.workdir(), 'c02-candidate.smt2')
